@@ -86,8 +86,10 @@ class RRELBase:
             intermediate matches. The returned obj can be
             Postponed.
         """
-        if not allowed(obj, lookup_list, self):  # also adjusts visited objs
-            return  # recursion stopper
+        # The first element of a path may start at the model root instead of
+        # the given object, which must not be marked as visited for it.
+        if not first_element and not allowed(obj, lookup_list, self):
+            return  # recursion stopper (also adjusts visited objs)
 
         obj, lookup_list, matched_path = self.apply(
             obj, lookup_list, matched_path, first_element
@@ -259,8 +261,10 @@ class RRELBrackets(RRELBase):
     def get_next_matches(
         self, obj, lookup_list, allowed, matched_path, first_element=False
     ):
-        if not allowed(obj, lookup_list, self):  # also adjusts visited objs
-            return  # recursion stopper
+        # The first element of a path may start at the model root instead of
+        # the given object, which must not be marked as visited for it.
+        if not first_element and not allowed(obj, lookup_list, self):
+            return  # recursion stopper (also adjusts visited objs)
         yield from self.seq.get_next_matches(
             obj, lookup_list, allowed, matched_path, first_element
         )
@@ -322,8 +326,10 @@ class RRELSequence(RRELBase):
     def get_next_matches(
         self, obj, lookup_list, allowed, matched_path, first_element=False
     ):
-        if not allowed(obj, lookup_list, self):  # also adjusts visited objs
-            return  # recursion stopper
+        # The first element of a path may start at the model root instead of
+        # the given object, which must not be marked as visited for it.
+        if not first_element and not allowed(obj, lookup_list, self):
+            return  # recursion stopper (also adjusts visited objs)
         for ip in self.paths:
             yield from ip.get_next_matches(
                 obj, lookup_list, allowed, matched_path, first_element
@@ -355,8 +361,11 @@ class RRELZeroOrMore(RRELBase):
 
         def get_from_zero_or_more(obj, lookup_list, matched_path, first_element=False):
             assert self.start_locally() or self.start_at_root()  # or, not xor
-            if not allowed(obj, lookup_list, self):  # also adjusts visited objs
-                return  # recursion stopper
+            # The object the search starts from is not necessarily the object
+            # yielded for zero repetitions (that may be the model root), so
+            # it must not be marked as visited by the first call.
+            if not first_element and not allowed(obj, lookup_list, self):
+                return  # recursion stopper (also adjusts visited objs)
             if first_element:
                 if self.start_locally():
                     yield obj, lookup_list, matched_path
